@@ -303,17 +303,18 @@ func ruleLeaseDuration() *Rule {
 	return &Rule{
 		ID: id,
 		Text: "Every lease is created with the configured lease duration (every call of newOperationManager passes options.leaseDuration; newOperationManager hands its parameter to newLease; newLease stores it in lease.duration), " +
-			"and renew sets expiration := time.Now().Add(that duration) and nothing else writes it but the constructor.",
+			"and every renewal sets expiration := T.Add(that duration), nothing else writes the two fields but the constructor. " +
+			"(LEASE-BASE) T is a time.Now() taken BEFORE the requests whose replies justify the renewal are sent: on no call chain from the function that reads the clock to the store does a Transport.SendAppendEntries call precede " +
+			"(a voter's promise not to vote runs from the moment it RECEIVED the request; counted from the arrival of the reply, the lease outlives the promise of the voter that answered first by up to two message delays).",
 		Floor: 4,
 		Run: func(p *Program) []Obligation {
 			nom := p.Func("newOperationManager")
 			nl := p.Func("newLease")
-			renew := p.Func("(*lease).renew")
 			durFld := p.Field("lease.duration")
 			expFld := p.Field("lease.expiration")
 			optFld := p.Field("options.leaseDuration")
-			if nom == nil || nl == nil || renew == nil || durFld == nil || expFld == nil || optFld == nil {
-				return missing(id, "newOperationManager / newLease / (*lease).renew / lease.duration / options.leaseDuration")
+			if nom == nil || nl == nil || durFld == nil || expFld == nil || optFld == nil {
+				return missing(id, "newOperationManager / newLease / lease.duration / lease.expiration / options.leaseDuration")
 			}
 			var out []Obligation
 			isOptLoad := func(v ssa.Value) bool {
@@ -380,36 +381,33 @@ func ruleLeaseDuration() *Rule {
 				ob.Verdict, ob.Detail = Violated, "newLease does not store its parameter in lease.duration unchanged"
 			}
 			out = append(out, ob)
-			// 3. renew: expiration := time.Now().Add(l.duration); writers of duration/expiration
-			ob = Obligation{Rule: id, Construct: "renewal extends the lease by lease.duration from now", Pos: p.Pos(renew.Pos())}
-			okRenew := false
-			for _, b := range renew.Blocks {
-				for _, in := range b.Instrs {
-					s, fld := storeField(in)
-					if s == nil || fld != expFld {
-						continue
-					}
-					add, ok := s.Val.(*ssa.Call)
-					if !ok || add.Common().StaticCallee() == nil || add.Common().StaticCallee().Name() != "Add" || len(add.Common().Args) != 2 {
-						continue
-					}
-					now, ok := add.Common().Args[0].(*ssa.Call)
-					if !ok || now.Common().StaticCallee() == nil || now.Common().StaticCallee().Name() != "Now" {
-						continue
-					}
-					if u, ok := stripConv(add.Common().Args[1]).(*ssa.UnOp); ok && u.Op == token.MUL {
-						if fa, ok := u.X.(*ssa.FieldAddr); ok && fieldOf(fa.X.Type(), fa.Field) == durFld {
-							okRenew = true
+			// 3. renewal: every store of lease.expiration outside the constructor is  T.Add(l.duration)  with T the
+			// current time or a time handed in by the caller; (LEASE-BASE) T is taken before the requests are sent.
+			for _, fn := range p.SortedFuncs() {
+				if fn == nl {
+					continue
+				}
+				for _, b := range fn.Blocks {
+					for _, in := range b.Instrs {
+						s, fld := storeField(in)
+						if s == nil || fld != expFld {
+							continue
 						}
+						ob = Obligation{Rule: id, Construct: "renewal extends the lease by lease.duration in " + FuncName(fn), Pos: p.InstrPos(in)}
+						base, okForm := leaseRenewalBase(s.Val, durFld)
+						switch {
+						case !okForm:
+							ob.Verdict, ob.Detail = Violated, "the stored expiration is not <time>.Add(l.duration)"
+						default:
+							ob.Verdict, ob.Detail = Discharged, "expiration := "+describeTimeBase(base)+".Add(l.duration)"
+							out = append(out, ob)
+							out = append(out, leaseBase(p, id, fn, base)...)
+							continue
+						}
+						out = append(out, ob)
 					}
 				}
 			}
-			if okRenew {
-				ob.Verdict, ob.Detail = Discharged, "expiration := time.Now().Add(l.duration)"
-			} else {
-				ob.Verdict, ob.Detail = Violated, "renew does not set expiration to time.Now().Add(l.duration)"
-			}
-			out = append(out, ob)
 			// 4. validity is "now before expiration"
 			if valid := p.Func("(*lease).isValid"); valid != nil {
 				ob = Obligation{Rule: id, Construct: "validity test of the lease", Pos: p.Pos(valid.Pos())}
@@ -453,14 +451,14 @@ func ruleLeaseDuration() *Rule {
 			}
 			// other writers of the two fields
 			for _, fn := range p.SortedFuncs() {
-				if fn == nl || fn == renew {
+				if fn == nl {
 					continue
 				}
 				for _, b := range fn.Blocks {
 					for _, in := range b.Instrs {
-						if s, fld := storeField(in); s != nil && (fld == durFld || fld == expFld) {
+						if s, fld := storeField(in); s != nil && fld == durFld {
 							out = append(out, Obligation{Rule: id, Construct: "write of lease." + fld.Name() + " in " + FuncName(fn), Pos: p.InstrPos(in), Verdict: Violated,
-								Detail: "the lease's duration/expiration is written outside newLease and renew: the lease can be extended by something other than a confirmed round"})
+								Detail: "the lease's duration is written outside newLease: the lease can be extended by something other than the configured duration"})
 						}
 					}
 				}
@@ -468,4 +466,254 @@ func ruleLeaseDuration() *Rule {
 			return out
 		},
 	}
+}
+
+
+// leaseRenewFns: the functions that store lease.expiration (other than the constructor) and the methods of lease that
+// call them.
+func leaseRenewFns(p *Program) map[*ssa.Function]bool {
+	out := map[*ssa.Function]bool{}
+	expFld := p.Field("lease.expiration")
+	nl := p.Func("newLease")
+	if expFld == nil {
+		return out
+	}
+	for _, fn := range p.SortedFuncs() {
+		if fn == nl {
+			continue
+		}
+		for _, b := range fn.Blocks {
+			for _, in := range b.Instrs {
+				if s, fld := storeField(in); s != nil && fld == expFld {
+					out[fn] = true
+				}
+			}
+		}
+	}
+	for changed := true; changed; {
+		changed = false
+		for _, fn := range p.SortedFuncs() {
+			if out[fn] || fn.Signature.Recv() == nil || !strings.Contains(fn.Signature.Recv().Type().String(), ".lease") {
+				continue
+			}
+			for _, b := range fn.Blocks {
+				for _, in := range b.Instrs {
+					if c, ok := in.(*ssa.Call); ok && c.Common().StaticCallee() != nil && out[c.Common().StaticCallee()] {
+						out[fn] = true
+						changed = true
+					}
+				}
+			}
+		}
+	}
+	return out
+}
+
+// leaseRenewalBase matches  T.Add(l.duration)  (possibly through a phi of such values / a local) and returns T.
+func leaseRenewalBase(v ssa.Value, durFld *types.Var) (ssa.Value, bool) {
+	add, ok := v.(*ssa.Call)
+	if !ok || add.Common().StaticCallee() == nil || add.Common().StaticCallee().String() != "(time.Time).Add" || len(add.Common().Args) != 2 {
+		return nil, false
+	}
+	u, ok := stripConv(add.Common().Args[1]).(*ssa.UnOp)
+	if !ok || u.Op != token.MUL {
+		return nil, false
+	}
+	fa, ok := u.X.(*ssa.FieldAddr)
+	if !ok || fieldOf(fa.X.Type(), fa.Field) != durFld {
+		return nil, false
+	}
+	return add.Common().Args[0], true
+}
+
+func isTimeNow(v ssa.Value) bool {
+	c, ok := v.(*ssa.Call)
+	return ok && c.Common().StaticCallee() != nil && c.Common().StaticCallee().String() == "time.Now"
+}
+
+func describeTimeBase(v ssa.Value) string {
+	if isTimeNow(v) {
+		return "time.Now()"
+	}
+	if par, ok := v.(*ssa.Parameter); ok {
+		return par.Name()
+	}
+	return v.Name()
+}
+
+// leaseBase decides LEASE-BASE for one renewal: base is the time the stored expiration is counted from, fn the
+// function that stores it. The value is followed upwards through parameters (calls and go statements) to the
+// time.Now() calls it comes from; on the way, at every call site the chain passes through and at the clock read
+// itself, no synchronous Transport.SendAppendEntries may precede within the same function.
+func leaseBase(p *Program, id string, fn *ssa.Function, base ssa.Value) []Obligation {
+	var out []Obligation
+	type item struct {
+		fn    *ssa.Function
+		v     ssa.Value
+		below ssa.Instruction // the site in fn through which the chain continues downwards (nil at the store)
+		chain string
+	}
+	sendsBefore := func(f *ssa.Function, at ssa.Instruction) ssa.Instruction {
+		// a synchronous Transport.Send* (directly or in a synchronously called in-scope function) from which `at` is reachable
+		var found ssa.Instruction
+		for _, b := range f.Blocks {
+			for _, in := range b.Instrs {
+				if found != nil {
+					break
+				}
+				ci, ok := in.(*ssa.Call)
+				if !ok {
+					continue
+				}
+				if !isHeartbeatSend(ci.Common()) && !p.callsTransportSend(ci.Common().StaticCallee(), map[*ssa.Function]bool{}) {
+					continue
+				}
+				if in == at {
+					continue
+				}
+				if instrReaches(in, at) {
+					found = in
+				}
+			}
+		}
+		return found
+	}
+	seen := map[string]bool{}
+	work := []item{{fn: fn, v: base, chain: FuncName(fn)}}
+	n := 0
+	for len(work) > 0 && n < 200 {
+		n++
+		it := work[0]
+		work = work[1:]
+		key := FuncName(it.fn) + "|" + it.v.Name() + "|" + it.chain
+		if seen[key] {
+			continue
+		}
+		seen[key] = true
+		switch v := it.v.(type) {
+		case *ssa.Call:
+			ob := Obligation{Rule: id, Construct: "LEASE-BASE clock read in " + FuncName(it.fn) + " for the renewal in " + FuncName(fn), Pos: p.InstrPos(v)}
+			if !isTimeNow(v) {
+				ob.Verdict, ob.Detail = Undecided, "the time the lease is counted from is the result of "+calleeName(v.Common())+", not a clock read or a parameter"
+				out = append(out, ob)
+				continue
+			}
+			if s := sendsBefore(it.fn, v); s != nil {
+				ob.Verdict = Violated
+				ob.Detail = "the clock is read after " + p.InstrPos(s) + " has sent a request and waited for its reply: the lease is counted from the ARRIVAL of a reply, the voters' promise from the RECEIPT of the request — with two voters reached at different times the lease outlives the promise of the first by up to two message delays (chain: " + it.chain + ")"
+				out = append(out, ob)
+				continue
+			}
+			// upwards: callers of it.fn must not have sent before calling
+			bad := ""
+			var up func(f *ssa.Function, depth int, chain string)
+			visited := map[*ssa.Function]bool{}
+			up = func(f *ssa.Function, depth int, chain string) {
+				if visited[f] || depth > 6 || bad != "" {
+					return
+				}
+				visited[f] = true
+				for _, site := range p.Callers[f] {
+					cs := site.Instr
+					if _, isGo := cs.(*ssa.Go); isGo {
+						continue // a new goroutine: what its spawner sent earlier belongs to an earlier round
+					}
+					cf := cs.Parent()
+					if !p.InScope[cf] {
+						continue
+					}
+					if s := sendsBefore(cf, cs.(ssa.Instruction)); s != nil {
+						bad = FuncName(cf) + " sends at " + p.InstrPos(s) + " before it calls " + FuncName(f) + " at " + p.InstrPos(cs.(ssa.Instruction)) + " (chain: " + FuncName(cf) + " > " + chain + ")"
+						return
+					}
+					up(cf, depth+1, FuncName(cf)+" > "+chain)
+				}
+			}
+			up(it.fn, 0, it.chain)
+			if bad != "" {
+				ob.Verdict = Violated
+				ob.Detail = "the clock is read after a request was sent and its reply awaited: " + bad + ": the lease is counted from the arrival of a reply, not from the moment the round was sent"
+			} else {
+				ob.Verdict, ob.Detail = Discharged, "the clock is read before any request of the chain is sent (chain: "+it.chain+")"
+			}
+			out = append(out, ob)
+		case *ssa.Parameter:
+			idx := -1
+			for i, par := range it.fn.Params {
+				if par == v {
+					idx = i
+				}
+			}
+			callers := p.Callers[it.fn]
+			if idx < 0 || len(callers) == 0 {
+				out = append(out, Obligation{Rule: id, Construct: "LEASE-BASE time parameter " + v.Name() + " of " + FuncName(it.fn), Pos: p.Pos(it.fn.Pos()), Verdict: Undecided,
+					Detail: "no in-scope caller supplies the time the lease is counted from"})
+				continue
+			}
+			for _, site := range callers {
+				cs := site.Instr
+				cf := cs.Parent()
+				if !p.InScope[cf] {
+					continue
+				}
+				args := cs.Common().Args
+				if idx >= len(args) {
+					continue
+				}
+				work = append(work, item{fn: cf, v: args[idx], below: cs.(ssa.Instruction), chain: FuncName(cf) + " > " + it.chain})
+			}
+		default:
+			out = append(out, Obligation{Rule: id, Construct: "LEASE-BASE time base of the renewal in " + FuncName(fn) + " as supplied by " + FuncName(it.fn), Pos: p.Pos(it.fn.Pos()), Verdict: Violated,
+				Detail: "the time the lease is counted from is neither a clock read nor handed down from one (" + v.String() + "): a time kept in shared state and read when the reply arrives belongs to whichever round wrote it last (chain: " + it.chain + ")"})
+		}
+	}
+	return out
+}
+
+
+// instrReaches: is `to` executed after `from` on some path of their function (same block later, or a reachable block)?
+func instrReaches(from, to ssa.Instruction) bool {
+	if from.Block() == to.Block() {
+		after := false
+		for _, in := range from.Block().Instrs {
+			if in == from {
+				after = true
+				continue
+			}
+			if in == to && after {
+				return true
+			}
+		}
+		// the same block again through a loop
+	}
+	return blockReaches(from.Block(), to.Block())
+}
+
+// isHeartbeatSend: Transport.SendAppendEntries, the request whose replies are counted towards the confirmation of a
+// round (CONFIRM-QUORUM ties the counting to its reply handler).
+func isHeartbeatSend(c *ssa.CallCommon) bool {
+	return isTransportSend(c) && c.Method.Name() == "SendAppendEntries"
+}
+
+// callsTransportSend: does fn (or a function it calls synchronously, in scope) invoke Transport.SendAppendEntries?
+func (p *Program) callsTransportSend(fn *ssa.Function, seen map[*ssa.Function]bool) bool {
+	if fn == nil || !p.InScope[fn] || seen[fn] {
+		return false
+	}
+	seen[fn] = true
+	for _, b := range fn.Blocks {
+		for _, in := range b.Instrs {
+			c, ok := in.(*ssa.Call)
+			if !ok {
+				continue
+			}
+			if isHeartbeatSend(c.Common()) {
+				return true
+			}
+			if p.callsTransportSend(c.Common().StaticCallee(), seen) {
+				return true
+			}
+		}
+	}
+	return false
 }
